@@ -227,6 +227,11 @@ func buildCatalogue() []item {
 		k := k
 		add("leaf-key-"+k, false, leafOnly, func(d *desc, pos int) { d.specs[0].Key = pki.K(k, 0) })
 	}
+	// the extended key usage as the very first extension of the certificate
+	add("leaf-eku-extension-first", true, leafOnly, func(d *desc, pos int) { d.specs[0].EKUFirst = true })
+	// the authority key identifier of a certificate is not its issuer's subject
+	// key identifier (identifiers are hints; names, keys and signatures decide)
+	add("aki-differs-from-issuers-ski", true, notRoot, func(d *desc, pos int) { d.specs[pos].AKI = []byte("another-key-identifier") })
 	add("leaf-eku-absent", true, csLeaf, func(d *desc, pos int) { d.specs[0].EKU = nil })
 	add("leaf-eku-codesigning-critical", true, csLeaf, func(d *desc, pos int) { d.specs[0].EKUCritical = true })
 	add("leaf-eku-any", true, csLeaf, func(d *desc, pos int) { d.specs[0].EKU = []x509.ExtKeyUsage{x509.ExtKeyUsageAny} })
